@@ -379,7 +379,7 @@ void world_wire_push(world_t *w, int dir, const unsigned char *p, int len)
         return;
     }
     r = &q->r[(q->head + q->n) % W_MAXREC];
-    r->p = malloc((size_t) len + 1);
+    r->p = h_malloc((size_t) len + 1);
     memcpy(r->p, p, (size_t) len);
     r->p[len] = 0; /* spare marker byte for drivers */
     r->len = len;
